@@ -13,7 +13,7 @@ from vf.unit import Unit
 PRELUDE = r'''
 #![allow(unused_imports, unused_variables, dead_code, unused_mut, unused_parens)]
 use vstd::prelude::*;
-use std::collections::HashMap;
+use std::collections::{HashMap, HashSet, BTreeMap, BTreeSet, VecDeque};
 verus! {
 global size_of usize == 8;
 pub trait Field: Sized + Copy {}
